@@ -1,0 +1,9 @@
+//go:build !verif
+// +build !verif
+
+// Package vhook provides named delay-injection points for verification
+// builds. Without the "verif" build tag every point is an empty function.
+package vhook
+
+// Point is a no-op in regular builds.
+func Point(string) {}
